@@ -16,9 +16,11 @@ Python only builds, calls, projects and renames; every verdict is a TLA+ definit
                             UPTimeSem!TimeVerdict of A and B on seeded time-triggered plans.
 
 Known-finding signatures:  <clause>|<construct class>.  For a parse failure the construct class is the first
-class (fixed priority) of `unparsable_constructs(P)`, computed from the UPJ of the ORIGINAL problem only, so a
-parse failure on a problem without these constructs has the signature `parse-fails|none|<exception>` and is
-reported.  Half of the corpus is generated free of these constructs so that the comparison itself is exercised.
+class (fixed priority) of `unparsable_constructs(P)`, computed from the ORIGINAL problem only (its UPJ and its
+expressions as the writer prints them, i.e. simplified), so a parse failure on a problem without these constructs
+has the signature `parse-fails|none|<exception>` and is reported.  Half of the corpus is generated free of these
+constructs so that the comparison itself is exercised; a few of those are read with ANMLReader(Environment())
+(class `reader-environment`).
 """
 import os
 import random
@@ -197,10 +199,9 @@ def adversarial_names(P, rng, strength=0.7, symbols=0.0):
 
 
 # ----------------------------------------------------------------------------------------
-# construct classes of the input (deterministic, from the UPJ of the original problem only)
+# construct classes of the input (deterministic; keys of the known-finding signatures)
 # ----------------------------------------------------------------------------------------
 _ATOMS = ("fluent", "param", "var", "const", "obj")
-_BOOL_COMPOUND = ("not", "and", "or", "implies", "exists", "forall")
 _QUANT = ("exists", "forall")
 
 
@@ -211,33 +212,53 @@ def _walk(e):
             yield x
 
 
-def _iff_compound(e):
-    return e["op"] == "iff" and any(a["op"] in _BOOL_COMPOUND or _iff_compound(a) for a in e["args"])
+def _iff_unparsable(e):
+    """an `iff` one of whose operands is printed as something the relational level of the grammar rejects:
+    (x and y), (x or y), (x implies y), a quantifier, or (not atom)"""
+    return e["op"] == "iff" and any(
+        a["op"] in ("and", "or", "implies") + _QUANT or (a["op"] == "not" and a["args"][0]["op"] in _ATOMS) for a in e["args"])
 
 
-def _exprs(P):
-    """(role, expression) for every expression of P; role 'when' = condition of an effect"""
-    for a in P["actions"]:
-        for c in a["pre"]:
-            yield "cond", c
-        for c in a.get("conds", []):
-            yield "cond", c["c"]
-        effs = [e if a["kind"] == "inst" else e["e"] for e in a["effects"]]
-        for ef in effs:
-            yield "when", ef["c"]
-            yield "value", ef["v"]
-        if a["kind"] == "dur":
-            yield "dur", a["dur"]["lo"]
-            yield "dur", a["dur"]["hi"]
-    for te in P.get("timed_effects", []):
-        yield "when", te["e"]["c"]
-        yield "value", te["e"]["v"]
-    for g in P["goals"]:
-        yield "cond", g
-    for tg in P.get("timed_goals", []):
-        yield "cond", tg["g"]
-    for g in P.get("invariants", []):
-        yield "cond", g
+def written_exprs(problem):
+    """(role, UPJ expression) for every expression ANMLWriter prints, AS IT PRINTS THEM: the writer passes every
+    expression through the environment's simplifier first (ConverterToANMLString.convert), so the construct
+    classes are computed on the simplified expressions.  role 'when' = condition of an effect."""
+    from unified_planning.model import InstantaneousAction
+
+    simp = problem.environment.simplifier.simplify
+
+    def effs(el):
+        for ef in el:
+            yield "when", ef.condition
+            yield "value", ef.value
+
+    def gen():
+        for a in problem.actions:
+            if isinstance(a, InstantaneousAction):
+                for c in a.preconditions:
+                    yield "cond", c
+                for x in effs(a.effects):
+                    yield x
+            else:
+                for cl in a.conditions.values():
+                    for c in cl:
+                        yield "cond", c
+                for el in a.effects.values():
+                    for x in effs(el):
+                        yield x
+        for el in problem.timed_effects.values():
+            for x in effs(el):
+                yield x
+        for g in problem.goals:
+            yield "cond", g
+        for gl in problem.timed_goals.values():
+            for g in gl:
+                yield "cond", g
+        for g in problem.state_invariants:
+            yield "cond", g
+
+    for role, e in gen():
+        yield role, upj.p_expr(simp(e))
 
 
 _IDENT = re.compile(r"^[A-Za-z_][A-Za-z0-9_]*$")
@@ -246,8 +267,8 @@ UNPARSABLE = ("name-with-symbol", "bounded-real", "bounded-int-negative", "iff-c
               "when-quantifier", "when-not-compound")
 
 
-def unparsable_constructs(P):
-    """the construct classes of P that ANMLReader cannot parse in ANMLWriter's output (notes/C19.md)"""
+def unparsable_constructs(P, problem):
+    """the construct classes of P (built as `problem`) that ANMLReader cannot parse in ANMLWriter's output (notes/C19.md)"""
     fs = set()
     names = [t["name"] for t in P["types"]] + [o["name"] for o in P["objects"]] + [f["name"] for f in P["fluents"]] + \
             [a["name"] for a in P["actions"]]
@@ -261,9 +282,9 @@ def unparsable_constructs(P):
                 fs.add("bounded-real")
         if t["k"] == "int" and any(b["k"] != "none" and b["n"] < 0 for b in (t["lo"], t["hi"])):
             fs.add("bounded-int-negative")
-    for role, e in _exprs(P):
+    for role, e in written_exprs(problem):
         for x in _walk(e):
-            if _iff_compound(x):
+            if _iff_unparsable(x):
                 fs.add("iff-compound")
             if x["op"] in ("and", "or", "implies", "iff") and x["args"][0]["op"] in _QUANT:
                 fs.add("quantifier-first-operand")
@@ -275,9 +296,15 @@ def unparsable_constructs(P):
     return [c for c in UNPARSABLE if c in fs]
 
 
-def _bounded(P):
-    return any(f["type"]["k"] in ("int", "real") and (f["type"]["lo"]["k"] != "none" or f["type"]["hi"]["k"] != "none")
-               for f in P["fluents"])
+def constructs_of(P):
+    """unparsable_constructs of P, or None when P cannot be built"""
+    try:
+        with time_limit(30):
+            return unparsable_constructs(P, upj.build(P))
+    except ImplTimeout:
+        return None
+    except Exception:
+        return None
 
 
 def semantic_features(P):
@@ -443,32 +470,50 @@ MASKS = {
 TMASK = dict(BASE, bounded=False, invariants=False, quantifiers=True, forall_eff=True, conditional=True)
 
 
-def _fresh(g, want_clean, tries=60):
+class _Shallow:
+    """generator restriction (speed only): ANMLReader's pyparsing grammar needs time exponential in the nesting depth
+    of parentheses (30 s of CPU for one goal of depth 5), so part of the corpus caps the expression depth"""
+    cap_b = 1
+    cap_n = 1
+
+    def bool_expr(self, depth, params, vs, noconst=False):
+        return super().bool_expr(min(depth, self.cap_b), params, vs, noconst)
+
+    def num_expr(self, depth, params, vs, intonly=False, nodiv=True):
+        return super().num_expr(min(depth, self.cap_n), params, vs, intonly, nodiv)
+
+
+class SGen(_Shallow, Gen):
+    pass
+
+
+class STGen(_Shallow, TGen):
+    pass
+
+
+def _fresh(g, want_clean, need_inv=False, tries=80):
     """a generated problem; want_clean: free of the constructs the reader is known not to parse"""
     P = g.problem()
-    if not want_clean:
-        return P
     for _ in range(tries):
-        if not unparsable_constructs(P):
+        if (not need_inv or P["invariants"]) and (not want_clean or constructs_of(P) == []):
             return P
         P = g.problem()
     return P
 
 
-def make_corpus(rng, counts):
-    """[(slice, P)]; every random choice comes from rng"""
+def make_corpus(rng, counts, deep_every=0):
+    """[(slice, P)]; every random choice comes from rng.  deep_every = n: every n-th problem uses the unrestricted
+    expression depth of harness/gen.py (0: none)"""
     out = []
-    gens = {k: Gen(rng, **m) for k, m in MASKS.items()}
-    gens["tmp"] = TGen(rng, **TMASK)
-    gens["tinv"] = TGen(rng, **dict(TMASK, invariants=True))
+    gens, deep = {}, {}
+    for k, m in MASKS.items():
+        gens[k], deep[k] = SGen(rng, **m), Gen(rng, **m)
+    gens["tmp"], deep["tmp"] = STGen(rng, **TMASK), TGen(rng, **TMASK)
+    gens["tinv"], deep["tinv"] = STGen(rng, **dict(TMASK, invariants=True)), TGen(rng, **dict(TMASK, invariants=True))
     for sl in ("cls", "num", "bnd", "inv", "tmp", "tinv"):
         for i in range(counts.get(sl, 0)):
-            P = _fresh(gens[sl], want_clean=(i % 2 == 0))
-            if sl == "inv" or sl == "tinv":
-                for _ in range(40):
-                    if P["invariants"]:
-                        break
-                    P = _fresh(gens[sl], want_clean=(i % 2 == 0))
+            g = deep[sl] if deep_every and i % deep_every == deep_every - 1 else gens[sl]
+            P = _fresh(g, want_clean=(i % 2 == 0), need_inv=sl in ("inv", "tinv"))
             if i % 3 == 1:
                 P = adversarial_names(P, rng, 0.7)
             elif i % 12 == 5:
@@ -551,10 +596,14 @@ def _tt_plans(P, problem, rng, k):
 def worker(job):
     cid, slice_, P, L, k, seed, limit = job
     rng = random.Random(seed)
-    rec = {"cid": cid, "slice": slice_, "P": P, "skip": "", "safe": 0, "R": None, "plans": []}
+    rec = {"cid": cid, "slice": slice_, "P": P, "skip": "", "safe": 0, "R": None, "plans": [], "constructs": [], "fresh_env": False}
     try:
         temporal = slice_ in ("tmp", "tinv")
-        R, problem = round_trip(P, limit, fresh_env=(cid % 4 == 3))
+        cs = constructs_of(P)
+        rec["constructs"] = cs or []
+        # ANMLReader(env) with a fresh Environment: only on problems free of unparsable constructs (unambiguous signature)
+        rec["fresh_env"] = cs == [] and cid % 8 == 7
+        R, problem = round_trip(P, limit, fresh_env=rec["fresh_env"])
         if R["skip"]:
             rec["skip"] = R["skip"]
             rec["detail"] = R.get("detail", "")
@@ -655,13 +704,14 @@ def run_judges(ctx, rt, bis):
     return fails, tallies, valid, unspec, nb
 
 
-def signature(clause, detail, P):
+def signature(clause, detail, rec):
     if clause == "parse-fails":
-        cs = unparsable_constructs(P)
-        if cs:
-            return "parse-fails|" + cs[0]
+        if rec["constructs"]:
+            return "parse-fails|" + rec["constructs"][0]
+        if rec["fresh_env"]:
+            return "parse-fails|reader-environment|" + str(detail)
         return "parse-fails|none|" + str(detail)
-    feats = semantic_features(P)
+    feats = semantic_features(rec["P"])
     return clause + ("|" + ",".join(feats) if feats else "")
 
 
@@ -673,8 +723,9 @@ def judge_and_report(ctx, recs, D):
     for (cid, pi, clause, detail) in fails:
         rec = index[cid]
         R = rec["R"]
-        sig = signature(clause, detail, rec["P"])
-        data = {"clause": clause, "detail": detail, "slice": rec["slice"], "unparsable_constructs": unparsable_constructs(rec["P"]),
+        sig = signature(clause, detail, rec)
+        data = {"clause": clause, "detail": detail, "slice": rec["slice"], "unparsable_constructs": rec["constructs"],
+                "read_with_fresh_environment": rec["fresh_env"],
                 "problem": rec["P"], "anml": R["text"], "writer_exception": [R["wexc"], R["wmsg"]],
                 "reader_exception": [R["rexc"], R["rmsg"], R["rwhere"]], "reread": R["B"], "unknown_names": R["miss"],
                 "colliding_names": R["coll"]}
@@ -690,7 +741,7 @@ def run(ctx):
     D = 3 if q else 4
     k = 3 if q else 5
     limit = 150 if q else 400
-    corpus = make_corpus(ctx.rng, counts)
+    corpus = make_corpus(ctx.rng, counts, deep_every=0 if q else 3)
     jobs = [(i + 1, sl, P, D, k, ctx.seed * 7919 + i, limit) for i, (sl, P) in enumerate(corpus)]
     with Pool(NPROC, maxtasksperchild=20) as pool:
         recs = pool.map(worker, jobs, chunksize=1)
@@ -721,7 +772,7 @@ def run(ctx):
     for r_ in recs:
         if r_["R"] and r_["R"]["rexc"] != "none":
             exc[r_["R"]["rexc"]] = exc.get(r_["R"]["rexc"], 0) + 1
-            c = (unparsable_constructs(r_["P"]) or ["none"])[0]
+            c = (r_["constructs"] or ["reader-environment" if r_["fresh_env"] else "none"])[0]
             classes[c] = classes.get(c, 0) + 1
     ctx.cov["reader_exceptions"] = exc
     ctx.cov["parse_failures_by_construct_class"] = classes
